@@ -28,7 +28,7 @@ pub fn stages(tier: Tier, run: RunFn<Hist>, rule: &'static str) -> Vec<Box<dyn D
             panic_is_violation: false,
             render: |c: &Hist| c.render(),
             rule,
-            case_timeout_s: tier.pick(60, 300),
+            case_timeout_s: tier.pick(30, 120),
             exhaustive: false,
         }));
     }
@@ -41,7 +41,7 @@ pub fn stages(tier: Tier, run: RunFn<Hist>, rule: &'static str) -> Vec<Box<dyn D
         panic_is_violation: false,
         render: |c: &Hist| c.render(),
         rule: "exhaustive: a k-slot leaf g made symmetric by every set of <= 2 permutations (k = 3 and k = 4), a second k-slot leaf h whose parent (w (h ..)) already lost one slot, then g = h asserted in either orientation, so that h's class receives all generators at once while its parent has a redundant slot; all (sub)terms compared with the ground closure",
-        case_timeout_s: tier.pick(300, 900),
+        case_timeout_s: tier.pick(30, 120),
         exhaustive: true,
     }));
     v.push(Box::new(Stage {
@@ -51,7 +51,7 @@ pub fn stages(tier: Tier, run: RunFn<Hist>, rule: &'static str) -> Vec<Box<dyn D
         panic_is_violation: false,
         render: |c: &Hist| c.render(),
         rule: "exhaustive: a parent (p (g ..) (g pi(..))) that uses one k-slot class twice in two argument orders, then (w (h ..)) = (g ..) asserted in either orientation (the w-node now lives in g's class but stems from a dead class), then h made symmetric by every set of <= 2 permutations (k = 3; k = 4 with every 6th argument order pi in the quick tier, all in the thorough tier): g's class learns its symmetry through a moved e-node and its parent has to be re-canonicalised; all (sub)terms compared with the ground closure",
-        case_timeout_s: tier.pick(300, 900),
+        case_timeout_s: tier.pick(30, 120),
         exhaustive: true,
     }));
     v
